@@ -131,9 +131,9 @@ class Lane:
         return {'kind': 'viol', 'key': key, 'what': what, 'case': cse, 'reproduced': reproduced, 'detail': detail, 'regions': rec['regions']}
 
 
-def run_lane(chk, lane_cls, params=(), bounds=None, dev=True, selftest=True, twin=None, need_regions=()):
+def run_lane(chk, lane_cls, params=(), bounds=None, dev=True, selftest=True, twin=None, need_regions=(), variant=''):
     """explore one lane completely, account for it in the evidence, report violations"""
-    prog = chk.program()
+    prog = chk.program(variant)
     t0 = time.time()
     merged = explore_parallel(prog, lane_cls, params, dev=dev)
     wall = time.time() - t0
